@@ -176,14 +176,14 @@ def c03(tier, seed, replay=None):
                   dict(N=3, MaxAr=3, KindMode="node")]
         mutants = [("CountPerNode", dict(N=3, MaxAr=2, KindMode="node"))]
         sets = [dict(N=4, MaxAr=2, KindMode="node"), dict(N=3, MaxAr=2, WithConst=True, KindMode="edge"),
-                dict(N=3, MaxAr=3, KindMode="node")]
+                dict(N=3, MaxAr=3, KindMode="node"), dict(N=6, Family="share")]
     else:
         models = [dict(N=5, MaxAr=2, KindMode="node"), dict(N=4, MaxAr=2, WithConst=True, KindMode="edge"),
                   dict(N=3, MaxAr=3, WithConst=True, KindMode="edge")]
         mutants = [("CountPerNode", dict(N=4, MaxAr=2, KindMode="node")), ("FirstMutable", dict(N=4, MaxAr=2, KindMode="node")),
                    ("MutAddNoneAliases", dict(N=4, MaxAr=2, KindMode="node"))]
         sets = [dict(N=5, MaxAr=2, KindMode="node"), dict(N=4, MaxAr=2, WithConst=True, KindMode="edge"),
-                dict(N=4, MaxAr=3, KindMode="node"), dict(N=3, MaxAr=3, WithConst=True, KindMode="edge")]
+                dict(N=4, MaxAr=3, KindMode="node"), dict(N=3, MaxAr=3, WithConst=True, KindMode="edge"), dict(N=6, Family="share")]
     return _run("C03", tier, seed, models, mutants, sets, decorate, "", ASSUME,
                 "every graph of the exported space (all DAGs with multi-edges, diamonds, dead branches, constants; contribution kinds "
                 "alias/fresh/sparse) is one case; distinct_nontrivial counts distinct (graph, session, builtin?) triples with >= 3 nodes")
@@ -219,13 +219,13 @@ def c10(tier, seed, replay=None):
                   dict(N=4, MaxAr=2, KindMode="node")]
         mutants = [("FirstMutable", dict(N=3, MaxAr=2, KindMode="node")), ("MutAddNoneAliases", dict(N=3, MaxAr=2, KindMode="node"))]
         sets = [dict(N=4, MaxAr=2, KindMode="node"), dict(N=3, MaxAr=2, WithConst=True, KindMode="edge"),
-                dict(N=3, MaxAr=3, KindMode="node")]
+                dict(N=3, MaxAr=3, KindMode="node"), dict(N=6, Family="share")]
     else:
         models = [dict(N=3, MaxAr=3, WithConst=True, KindMode="edge", MaxCalls=3), dict(N=4, MaxAr=2, KindMode="node", MaxCalls=2),
                   dict(N=5, MaxAr=2, KindMode="node")]
         mutants = [("FirstMutable", dict(N=4, MaxAr=2, KindMode="node")), ("MutAddNoneAliases", dict(N=4, MaxAr=2, KindMode="node"))]
         sets = [dict(N=4, MaxAr=2, WithConst=True, KindMode="edge"), dict(N=4, MaxAr=3, KindMode="node"),
-                dict(N=3, MaxAr=3, WithConst=True, KindMode="edge")]
+                dict(N=3, MaxAr=3, WithConst=True, KindMode="edge"), dict(N=6, Family="share")]
     return _run("C10", tier, seed, models, mutants, sets, decorate, "", ASSUME + [
         "inputs, captured constants and cotangents are passed as writeable=False arrays and snapshotted; results of earlier calls are "
         "snapshotted and compared after every later call"],
